@@ -82,6 +82,142 @@ fn archive(n: usize) -> (Vec<u8>, Vec<(Vec<u8>, u64)>) {
     (out, truth)
 }
 
+const PW: &[u8] = b"loom-pw";
+
+fn crc_byte(c: u32, b: u8) -> u32 {
+    let mut c = c ^ b as u32;
+    for _ in 0..8 {
+        c = if c & 1 != 0 { (c >> 1) ^ 0xedb8_8320 } else { c >> 1 };
+    }
+    c
+}
+/// PKWARE traditional encryption of `plain` (12-byte header with the CRC's high byte as check byte).
+fn zipcrypto(plain: &[u8], crc: u32) -> Vec<u8> {
+    let mut k = [0x1234_5678u32, 0x2345_6789, 0x3456_7890];
+    let upd = |k: &mut [u32; 3], c: u8| {
+        k[0] = crc_byte(k[0], c);
+        k[1] = k[1].wrapping_add(k[0] & 0xff).wrapping_mul(134_775_813).wrapping_add(1);
+        k[2] = crc_byte(k[2], (k[1] >> 24) as u8);
+    };
+    for &b in PW {
+        upd(&mut k, b);
+    }
+    let mut out = vec![];
+    let mut hdr = [7u8; 12];
+    hdr[11] = (crc >> 24) as u8;
+    for &p in hdr.iter().chain(plain.iter()) {
+        let t = (k[2] | 2) as u16;
+        let s = (t.wrapping_mul(t ^ 1) >> 8) as u8;
+        out.push(p ^ s);
+        upd(&mut k, p);
+    }
+    out
+}
+
+/// One plain stored entry followed by one ZipCrypto stored entry (with a local extra field).
+fn crypto_archive() -> (Vec<u8>, Vec<u8>, u64, Vec<u8>) {
+    let (mut out, mut cd) = (vec![], vec![]);
+    let plain: Vec<u8> = (0..33u32).map(|k| (k * 11 + 3) as u8).collect();
+    let mut data_start = 0u64;
+    let mut stored_bytes = vec![];
+    for i in 0..2usize {
+        let name = format!("entry{i}");
+        let crc = crc32(&plain);
+        let payload = if i == 1 { zipcrypto(&plain, crc) } else { plain.clone() };
+        let flags: u16 = if i == 1 { 1 } else { 0 };
+        let lextra: Vec<u8> = if i == 1 { vec![0x66, 0x66, 2, 0, 9, 9] } else { vec![] };
+        let off = out.len() as u32;
+        p32(&mut out, 0x04034b50);
+        p16(&mut out, 20);
+        p16(&mut out, flags);
+        p16(&mut out, 0);
+        p16(&mut out, 0x6000);
+        p16(&mut out, 0x5821);
+        p32(&mut out, crc);
+        p32(&mut out, payload.len() as u32);
+        p32(&mut out, plain.len() as u32);
+        p16(&mut out, name.len() as u16);
+        p16(&mut out, lextra.len() as u16);
+        out.extend_from_slice(name.as_bytes());
+        out.extend_from_slice(&lextra);
+        if i == 1 {
+            data_start = out.len() as u64;
+            stored_bytes = payload.clone();
+        }
+        out.extend_from_slice(&payload);
+        p32(&mut cd, 0x02014b50);
+        p16(&mut cd, (3 << 8) | 20);
+        p16(&mut cd, 20);
+        p16(&mut cd, flags);
+        p16(&mut cd, 0);
+        p16(&mut cd, 0x6000);
+        p16(&mut cd, 0x5821);
+        p32(&mut cd, crc);
+        p32(&mut cd, payload.len() as u32);
+        p32(&mut cd, plain.len() as u32);
+        p16(&mut cd, name.len() as u16);
+        p16(&mut cd, 0);
+        p16(&mut cd, 0);
+        p16(&mut cd, 0);
+        p16(&mut cd, 0);
+        p32(&mut cd, 0o100644 << 16);
+        p32(&mut cd, off);
+        cd.extend_from_slice(name.as_bytes());
+    }
+    let cd_off = out.len() as u32;
+    out.extend_from_slice(&cd);
+    p32(&mut out, 0x06054b50);
+    p16(&mut out, 0);
+    p16(&mut out, 0);
+    p16(&mut out, 2);
+    p16(&mut out, 2);
+    p32(&mut out, cd.len() as u32);
+    p32(&mut out, cd_off);
+    p16(&mut out, 0);
+    (out, plain, data_start, stored_bytes)
+}
+
+/// Two threads on the same ZipCrypto entry: `raw_second` = the second thread opens it undecoded.
+fn run_crypto(raw_second: bool, max_preemptions: Option<usize>) {
+    let (bytes, plain, data_start, stored) = crypto_archive();
+    let mut b = loom::model::Builder::new();
+    b.preemption_bound = max_preemptions;
+    b.check(move || {
+        EXECUTIONS.fetch_add(1, Ordering::Relaxed);
+        let (bytes, plain, stored) = (bytes.clone(), plain.clone(), stored.clone());
+        let root = loom::thread::Builder::new()
+            .stack_size(1 << 20)
+            .spawn(move || {
+                let ar = zip::ZipArchive::new(Cursor::new(bytes)).expect("open");
+                let mut hs = vec![];
+                for t in 0..2usize {
+                    let mut mine = ar.clone();
+                    let (plain, stored) = (plain.clone(), stored.clone());
+                    hs.push(
+                        loom::thread::Builder::new()
+                            .stack_size(1 << 20)
+                            .spawn(move || {
+                                let raw = raw_second && t == 1;
+                                let mut f = if raw { mine.by_index_raw(1).expect("by_index_raw") } else { mine.by_index_decrypt(1, PW).expect("by_index_decrypt").expect("password") };
+                                assert_eq!(f.data_start(), data_start, "data_start of the encrypted entry seen by thread {t}");
+                                let mut v = vec![];
+                                f.read_to_end(&mut v).expect("read");
+                                assert_eq!(&v, if raw { &stored } else { &plain }, "bytes of the encrypted entry seen by thread {t}");
+                                assert_eq!(f.data_start(), data_start, "data_start after reading, thread {t}");
+                            })
+                            .unwrap(),
+                    );
+                }
+                drop(ar);
+                for h in hs {
+                    h.join().unwrap();
+                }
+            })
+            .unwrap();
+        root.join().unwrap();
+    });
+}
+
 static EXECUTIONS: AtomicUsize = AtomicUsize::new(0);
 
 fn run(threads: usize, per_thread: usize, shared_entries: bool, max_preemptions: Option<usize>) {
@@ -147,6 +283,8 @@ fn main() {
         "3x1-disjoint" => run(3, 1, false, bound),
         "3x1-shared" => run(3, 1, true, bound),
         "2x1-shared" => run(2, 1, true, bound),
+        "2x1-crypto-pw-pw" => run_crypto(false, bound),
+        "2x1-crypto-pw-raw" => run_crypto(true, bound),
         s => {
             eprintln!("unknown scenario {s}");
             std::process::exit(2);
